@@ -4,7 +4,7 @@ import os
 import shutil
 
 from ..lib import lean, repo
-from ..sim import dev18
+from ..sim import dev18, pristine
 from ..translate import hpm as T
 
 ID = 'C18'
@@ -496,6 +496,318 @@ def malformed_stream(ctx, drv, work, variant, rng, n):
 
 
 # ------------------------------------------------------------------------------------------
+# histories: several images parsed one after the other in ONE process (same path, other paths)
+# ------------------------------------------------------------------------------------------
+PIN_NS = 1500000000 * 10 ** 9          # the modification time every "pinned" file carries
+SLOTS = ('image.hpm', 'other.hpm', 'third.hpm')
+PARSE_APIS = ('UpgradeImage', 'open_upgrade_image', 'ipmi.open_upgrade_image', 'version_from_file')
+
+
+def available_apis():
+    import pyipmi.hpm as H
+    out = ['UpgradeImage']
+    if hasattr(H.Hpm, 'open_upgrade_image'):
+        out += ['open_upgrade_image', 'ipmi.open_upgrade_image']
+    if hasattr(H.Hpm, 'get_upgrade_version_from_file'):
+        out.append('version_from_file')
+    return out
+
+
+def exec_history(steps):
+    """Write and parse the images of `steps` one after the other in THIS process.  Each step:
+    {'slot': 0..2, 'image': img, 'mtime': 'pin'|'natural', 'write': 'rewrite'|'replace', 'api': …}.
+    Returns what every parse gave (canonical view / exception tag), the size and modification time the
+    file had, and what the kept result objects read like after all later parses."""
+    import pyipmi.hpm as H
+    d = os.path.join(lean.WORK, 'c18h-%d' % os.getpid())
+    shutil.rmtree(d, ignore_errors=True)
+    os.makedirs(d)
+    kept, out = [], []
+    try:
+        for st in steps:
+            p = os.path.join(d, SLOTS[st.get('slot', 0)])
+            data = encode_image(st['image'])
+            pin = st.get('mtime', 'pin') == 'pin'
+            if st.get('write') == 'replace':
+                with open(p + '.new', 'wb') as f:
+                    f.write(data)
+                os.replace(p + '.new', p)
+            else:
+                with open(p, 'wb') as f:
+                    f.write(data)
+            if pin:
+                os.utime(p, ns=(PIN_NS, PIN_NS))
+            s = os.stat(p)
+            api = st.get('api', 'UpgradeImage')
+            im = None
+            try:
+                if api == 'UpgradeImage':
+                    im = H.UpgradeImage(p)
+                elif api == 'open_upgrade_image':
+                    im = H.Hpm.open_upgrade_image(p)
+                elif api == 'ipmi.open_upgrade_image':
+                    im = dev18.make_ipmi(dev18.HpmDevice([])).open_upgrade_image(p)
+                elif api == 'version_from_file':
+                    v = H.Hpm.get_upgrade_version_from_file(p)
+                    view = 'V none' if v is None else 'V ' + _ver(v)
+                else:
+                    raise ValueError(api)
+                if im is not None:
+                    view = _view(im)
+            except Exception as e:  # noqa
+                view, im = _tag(e), None
+            out.append({'view': view, 'size': s.st_size, 'mtime_ns': s.st_mtime_ns})
+            if im is not None:
+                kept.append((len(out) - 1, im))
+        reread = [[i, _view(im)] for i, im in kept]
+    finally:
+        shutil.rmtree(d, ignore_errors=True)
+    return {'steps': out, 'reread': reread}
+
+
+def expected_step(st):
+    if st.get('api') == 'version_from_file':
+        for r in st['image']['recs']:
+            if r['k'] == 2:
+                return 'V %d.%d.%s' % (r['ver'][0], r['ver'][1], _hx(r['ver'][2:6]))
+        return 'V none'
+    return view_of(st['image'])
+
+
+def history_findings(case, res):
+    """Property oracle for a history: every parse is judged against the image that was in the file at
+    that moment; kept results must still read as they did.  -> [(step, signature, what, expected, observed)]"""
+    out = []
+    for i, (st, got) in enumerate(zip(case['steps'], res['steps'])):
+        exp = expected_step(st)
+        if got['view'] == exp:
+            continue
+        if st.get('api') == 'version_from_file':
+            out.append((i, 'C18:parse:version_from_file', 'get_upgrade_version_from_file does not return the version '
+                        'of the first upload record of the image in the file', exp, got['view']))
+            continue
+        c = _Collect()
+        judge_parse(c, case, exp, got['view'])
+        for v in c.violations[:1]:
+            out.append((i, v['signature'], v['what'], v['expected'], v['observed']))
+    views = dict((i, r['view']) for i, r in enumerate(res['steps']))
+    for i, now in res['reread']:
+        if now != views[i]:
+            out.append((i, 'C18:parse:result-changed-by-later-parse', 'a parsed image reads differently after later '
+                        'images were parsed', _first_diff(views[i], now), _first_diff(now, views[i])))
+    return out
+
+
+def _describe_step(st, got=None):
+    img = st['image']
+    s = '%s <- image of %d bytes (%d records, device id %d), %s, mtime %s, parsed by %s' % (
+        SLOTS[st.get('slot', 0)], len(encode_image(img)), len(img['recs']), img['hdr']['dev'],
+        st.get('write', 'rewrite'), st.get('mtime', 'pin'), st.get('api', 'UpgradeImage'))
+    return s
+
+
+def small_image(rng, nrec=None):
+    img = gen_image(rng, 'quick', nrec=nrec if nrec is not None else rng.randrange(1, 5),
+                    oem_len=rng.choice([0, 0, 1, 2, 16]))
+    for r in img['recs']:
+        if r['k'] == 2:
+            r['fw'] = r['fw'][:2 * rng.choice([0, 1, 22, 23, 64, 150])]
+    if not any(r['k'] == 2 for r in img['recs']) and rng.random() < 0.7:
+        img['recs'][0] = {'k': 2, 'c': 1, 'ver': [1, 2, 3, 4, 5, 6], 'desc': DESC_DIRECTED[0].hex(),
+                          'fw': _rb(rng, rng.choice([1, 22, 40])).hex()}
+    return img
+
+
+def same_size_variant(rng, img, mode=None):
+    """Another well-formed image with exactly as many bytes: other header values / other firmware bytes and
+    versions / the same records in another order."""
+    import copy
+    from ..lib.rng import boundary_int as bi
+    mode = mode or rng.choice(['all', 'all', 'header', 'firmware', 'order'])
+    for _ in range(20):
+        v = copy.deepcopy(img)
+        if mode in ('all', 'header'):
+            h = v['hdr']
+            h.update({'dev': (h['dev'] + rng.randrange(1, 256)) % 256, 'man': bi(rng, 24), 'prod': bi(rng, 16),
+                      'time': bi(rng, 32), 'cap': bi(rng, 8), 'comps': bi(rng, 8), 'st': bi(rng, 8), 'rb': bi(rng, 8),
+                      'ina': bi(rng, 8), 'ecr': [bi(rng, 8), _minor(rng)], 'fr': [bi(rng, 8), _minor(rng)] + list(_rb(rng, 4)),
+                      'oem': _rb(rng, len(h['oem']) // 2).hex()})
+        if mode in ('all', 'firmware'):
+            for r in v['recs']:
+                r['c'] = (r['c'] + rng.randrange(1, 256)) % 256
+                if r['k'] == 2:
+                    r['ver'] = [bi(rng, 8), _minor(rng)] + list(_rb(rng, 4))
+                    r['fw'] = _rb(rng, len(r['fw']) // 2).hex()
+                elif rng.random() < 0.5:
+                    r['k'] = rng.choice([0, 1, 3])
+        if mode == 'order' and len(v['recs']) > 1:
+            v['recs'] = v['recs'][1:] + v['recs'][:1]
+            if rng.random() < 0.5:
+                v['recs'].reverse()
+        if encode_image(v) != encode_image(img):
+            assert len(encode_image(v)) == len(encode_image(img))
+            return v
+        mode = 'all'
+    return v
+
+
+def _st(slot, img, mtime='pin', write='rewrite', api='UpgradeImage'):
+    return {'slot': slot, 'image': img, 'mtime': mtime, 'write': write, 'api': api}
+
+
+def gen_histories(rng, apis, n_random):
+    out = []
+    # directed: the same path re-written with another image of the same size and the same modification time
+    for api2 in apis:
+        for api1 in (['UpgradeImage'] if api2 != 'UpgradeImage' else apis):
+            for mode in ('all', 'header', 'firmware', 'order'):
+                a = small_image(rng, nrec=3 if mode == 'order' else None)
+                b = same_size_variant(rng, a, mode)
+                out.append(('same-path/same-size/pinned/%s>%s/%s' % (api1, api2, mode),
+                            [_st(0, a, api=api1), _st(0, b, api=api2)]))
+    a = small_image(rng)
+    b = same_size_variant(rng, a)
+    c = small_image(rng)
+    e = same_size_variant(rng, c)
+    out.append(('same-path/replaced-file', [_st(0, a), _st(0, b, write='replace')]))
+    out.append(('same-path/natural-mtime', [_st(0, a, 'natural'), _st(0, b, 'natural')]))
+    out.append(('same-path/back-to-first', [_st(0, a), _st(0, b), _st(0, a)]))
+    out.append(('same-path/other-size-between', [_st(0, a), _st(0, c), _st(0, b)]))
+    out.append(('same-path/other-size', [_st(0, a), _st(0, c)]))
+    out.append(('other-path/same-size', [_st(0, a), _st(1, b)]))
+    out.append(('other-path-between', [_st(0, a), _st(1, c), _st(0, b), _st(1, e)]))
+    out.append(('same-image-twice-then-other', [_st(0, a), _st(0, a), _st(0, b), _st(0, b)]))
+    out.append(('two-paths-swapped', [_st(0, a), _st(1, b), _st(0, b), _st(1, a)]))
+    big = gen_image(rng, 'quick', nrec=2, oem_len=255)
+    big['recs'][0] = {'k': 2, 'c': 1, 'ver': [1, 23, 0, 0, 0, 1], 'desc': DESC_DIRECTED[0].hex(), 'fw': _rb(rng, 4096).hex()}
+    out.append(('same-path/same-size/4096-byte-firmware', [_st(0, big), _st(0, same_size_variant(rng, big, 'firmware'))]))
+    for i in range(n_random):
+        cur = {}
+        seen = []
+        steps = []
+        for _ in range(rng.choice([2, 2, 3, 3, 4, 5])):
+            slot = rng.choice([0, 0, 0, 1, 2])
+            r = rng.random()
+            if slot in cur and r < 0.55:
+                img = same_size_variant(rng, cur[slot])
+            elif seen and r < 0.7:
+                img = rng.choice(seen)
+            else:
+                img = small_image(rng)
+            cur[slot] = img
+            seen.append(img)
+            steps.append(_st(slot, img, rng.choice(['pin', 'pin', 'pin', 'natural']), rng.choice(['rewrite', 'rewrite', 'replace']),
+                             rng.choice(apis)))
+        out.append(('random%d' % i, steps))
+    return out
+
+
+def _history_sig(sig):
+    return 'C18:history:' + sig[len('C18:'):]
+
+
+def history_stream(ctx, drv, variant, rng, n_random):
+    """Every history is executed in a pristine child process (harness/sim/pristine.py): what a parse returns may
+    depend on nothing but the bytes in the file, whatever this process parsed before."""
+    p = _pristine()
+    apis = available_apis()
+    nsteps = 0
+    for label, steps in gen_histories(rng, apis, n_random):
+        case = {'kind': 'history', 'label': label, 'steps': steps}
+        try:
+            res = p.call('history', steps) if p is not None else exec_history(steps)
+        except pristine.PristineError as e:
+            ctx.notes.append('history %s could not be executed: %s' % (label, str(e)[-200:]))
+            continue
+        ctx.case(('history', label, tuple(encode_image(s['image']) for s in steps),
+                  tuple((s['slot'], s['mtime'], s['write'], s['api']) for s in steps)))
+        ctx.count('history:steps=%d' % len(steps))
+        ctx.count('history:' + label.split('/')[0].rstrip('0123456789'))
+        prev = {}
+        for st, got in zip(steps, res['steps']):
+            nsteps += 1
+            ctx.count('history:api=' + st['api'])
+            key = st['slot']
+            if key in prev:
+                same_size = prev[key][0] == got['size']
+                same_time = prev[key][1] == got['mtime_ns']
+                ctx.count('history:rewrite:%s-size/%s-mtime' % ('same' if same_size else 'other', 'same' if same_time else 'other'))
+            prev[key] = (got['size'], got['mtime_ns'])
+        ctx.count('history:kept-results-re-read', len(res['reread']))
+        # tie: the Lean parser model is a function of the bytes alone
+        if drv is not None:
+            lines = ['parse %d %d %s' % (variant[0], variant[1], _hx(encode_image(s['image']))) for s in steps
+                     if s['api'] != 'version_from_file']
+            models = iter(drv.ask_many(lines))
+            for i, (st, got) in enumerate(zip(steps, res['steps'])):
+                if st['api'] == 'version_from_file':
+                    continue
+                m = next(models)
+                if m != got['view']:
+                    ctx.disagree('parse-history', dict(case, step=i), _first_diff(m, got['view']), _first_diff(got['view'], m))
+        found = history_findings(case, res)
+        if not found:
+            continue
+        i, sig, what, exp, obs = found[0]
+        # is the history needed?  the failing step alone, in a process that has parsed nothing yet
+        alone = None
+        if p is not None:
+            try:
+                alone = history_findings({'steps': [steps[i]]}, p.call('history', [steps[i]]))
+            except pristine.PristineError:
+                alone = None
+        if alone:
+            if steps[i]['api'] == 'version_from_file':
+                ctx.violate(sig, what, {'kind': 'history', 'label': 'single', 'steps': [steps[i]]}, expected=exp, observed=obs)
+            else:
+                judge_parse(ctx, {'kind': 'parse', 'label': label, 'image': steps[i]['image']},
+                            view_of(steps[i]['image']), res['steps'][i]['view'])
+            continue
+        case, res = shrink_history(p, case, res, sig)
+        i, sig, what, exp, obs = [f for f in history_findings(case, res) if f[1] == sig][0]
+        ctx.violate(_history_sig(sig),
+                    'step %d of a history of %d parses in one process: %s (the same file parses correctly in a process '
+                    'that has parsed nothing before)' % (i, len(case['steps']), what), case, expected=exp, observed=obs)
+    ctx.extra['history_parses'] = nsteps
+
+
+def shrink_history(p, case, res, sig):
+    """drop steps that are not needed for the finding (each candidate in a pristine child)"""
+    steps = list(case['steps'])
+    progress = True
+    budget = 30
+    while p is not None and progress and budget > 0:
+        progress = False
+        for k in range(len(steps) - 1, -1, -1):
+            if len(steps) <= 1:
+                break
+            cand = steps[:k] + steps[k + 1:]
+            budget -= 1
+            try:
+                r2 = p.call('history', cand)
+            except pristine.PristineError:
+                continue
+            if any(f[1] == sig for f in history_findings({'steps': cand}, r2)):
+                steps, res, progress = cand, r2, True
+                break
+    return dict(case, steps=steps), res
+
+
+_PRISTINE = None
+
+
+def _pristine():
+    """the fork server, created the first time a stream asks for it (run() asks before it parses anything)"""
+    global _PRISTINE
+    if _PRISTINE is None:
+        try:
+            _PRISTINE = pristine.Pristine({'history': exec_history})
+        except OSError:
+            _PRISTINE = False
+    return _PRISTINE or None
+
+
+# ------------------------------------------------------------------------------------------
 # upload
 # ------------------------------------------------------------------------------------------
 def run_upload(binary, plan, timeout, interval, lat, retry, prior=()):
@@ -896,6 +1208,7 @@ def _streams(ctx, tag, scale):
     drv = _driver(ctx)
     if drv is None:
         ctx.notes.append('driver not available: the real code is judged by the harness oracle only')
+    _pristine()         # forked now: this process has not parsed anything yet
     work = Work(ctx)
     try:
         if drv is not None and _k is not None:
@@ -921,6 +1234,7 @@ def _streams(ctx, tag, scale):
         recheck_kept(ctx)
         ctx.extra['kept_results_re_read'] = len(_KEEP or [])
         _KEEP = None
+        history_stream(ctx, drv, variant, ctx.rng(tag + '/history'), int(10 * scale))
         malformed_stream(ctx, drv, work, variant, ctx.rng(tag + '/malformed'), int(60 * scale))
         chunks_stream(ctx, drv, ctx.rng(tag + '/chunks'), int(150 * scale))
         upload_streams(ctx, drv, ctx.rng(tag + '/upload'), scale)
@@ -974,6 +1288,20 @@ def replay(ctx, v):
             return now != first
         finally:
             work.close()
+    elif case.get('kind') == 'history':
+        # the whole history, in this (new) process
+        res = exec_history(case['steps'])
+        found = history_findings(case, res)
+        bad = dict((f[0], f) for f in reversed(found))
+        for i, (st, got) in enumerate(zip(case['steps'], res['steps'])):
+            print('step %d: %s' % (i, _describe_step(st)))
+            print('    file: %d bytes, mtime %d ns -> %s' % (got['size'], got['mtime_ns'],
+                                                           'as the image in the file demands' if i not in bad else 'WRONG'))
+            if i in bad:
+                print('    %s: %s' % (bad[i][1], bad[i][2]))
+                print('    image in the file: %s' % str(bad[i][3])[:200])
+                print('    parser returned  : %s' % str(bad[i][4])[:200])
+        return bool(found)
     elif case.get('kind') == 'upload':
         binary = b'' if case['binary'] == '-' else bytes.fromhex(case['binary'])
         plan = parse_plan(case['plan'])
